@@ -349,6 +349,9 @@ class Report:
                     "evaluations": 0, "distinct_nontrivial": 0, "rule": "", "exhaustive": False,
                     "actions": {}, "drift": 0, "unstable": 0, "parts": {}}
         self.assumptions = []
+        import glob
+        for old in glob.glob(os.path.join(OUT, "replay", f"{prop}_{tier}_*.json")):
+            os.remove(old)
         self._nontrivial = set()
         self._samples_max = 6
 
